@@ -918,7 +918,19 @@ class Interp:
         m = getattr(self, 'ex_' + type(node).__name__, None)
         if m is None:
             raise Unsupported(f'statement {type(node).__name__} at line {node.lineno}')
-        yield from m(node, st)
+        pc0 = list(st.pc)
+        try:
+            yield from m(node, st)
+        except Unsupported:
+            # path pruning uses only the quantifier-free part of the path condition, so an
+            # infeasible path may survive; a construct that cannot be interpreted on such a
+            # path is irrelevant
+            s = z3.Solver()
+            s.set('timeout', 3000)
+            s.add(*pc0)
+            if s.check() == z3.unsat:
+                return
+            raise
 
     def ex_Pass(self, node, st):
         yield st, OUT_NORMAL
